@@ -1736,12 +1736,15 @@ func (s *Store) ExecuteTransaction(transaction *Transaction) error {
 		updateCountsPerDataset[k] = newItems
 	}
 
-	err := s.commitIDTxn()
-	if err != nil {
-		return err
+	// the internal ids named by the data were asserted through the datasets' own store: a contextual store shares
+	// the datasets but not the pending id transaction, so the id transaction to commit is the datasets', not s's
+	for _, ds := range datasets {
+		if err := ds.store.commitIDTxn(); err != nil {
+			return err
+		}
 	}
 
-	err = txn.Commit()
+	err := txn.Commit()
 	if err != nil {
 		return err
 	}
